@@ -14,7 +14,8 @@ CHECKS = {
             "explicit-state BFS over real Broker states with an exact reference ledger in lock-step",
             "Every history of <= 4 (quick) / 5-6 (thorough) operations over {4 quotes x 2 contracts, +-1/+-2 lot trades, "
             "mark-to-market (all/one), valuation, 3 rebalance targets} is executed on the real Broker for 6 contract universes "
-            "(spot, user-defined multiplier 4 and 0.5, margined r=1/4, 1/2, 1, ES-like m=50 r=0.1) x fee schedules; after every "
+            "(spot, user-defined multiplier 4 and 0.5, margined r=1/4, 1/2, 1, ES-like m=50 r=0.1, a three-contract universe) x fee schedules, "
+            "with units where interest accrues inside rebalances and a -50% quote in the palette; after every "
             "transition NLV and positions are compared with deposit+interest-commissions+sum m(q*liq-cost) computed in exact "
             "rationals from the operation parameters. States are deduplicated on every field Broker reads.",
             "Bounded: depth, 2 contracts per universe, palette of quotes; interest amount trusted from profit_on_idle_cash (C06). "
@@ -30,7 +31,7 @@ CHECKS = {
             "DESIGN 4/C05"),
     "C04": ("exploration",
             "bounded-exhaustive enumeration of event placements/configurations on the real TradingEnv+Transmitter with a recording observer, compared with a delivery reference model",
-            "Latency {0,30s} x fold {whole, late, middle} x history {all, markov, warm-up 1 or 2 gaps} fully crossed, times every assignment of grid shape "
+            "Latency {0,30s} x fold {whole, late, middle, three windows whose boundaries fall between timesteps} x history {all, markov, warm-up 1 or 2 gaps} fully crossed, times every assignment of grid shape "
             "(minutes, days across a weekend, mixed gaps), 1-2 contracts, episode length/start (through a chooser seam on numpy.random.choice), unsorted+duplicated "
             "grid input, insertion order, and every multiset of extra quote/custom events over ~26 region/boundary positions, within a total deviation bound "
             "(2 quick / 3 thorough); two consecutive episodes per configuration. Oracle: exactly-once delivery at the right step and side of the execution, "
@@ -72,7 +73,8 @@ CHECKS = {
             "every reachable broker state (ledger BFS) x target menu: one real Broker.rebalance transition each, checked against exact target arithmetic",
             "From every state reached by the ledger BFS within 2-3 (quick) / 3-4 (thorough) operations (long, short, leveraged, mixed spot/margined holdings, "
             "6 universes x fee schedules), one Broker.rebalance per element of 8 weight targets (negative, >1, zero) and 4 contract targets: position x multiplier x "
-            "execution-side quote = w x NLV before trading, untargeted holdings closed, contract targets exact; when the market is frictionless, weights = w, NLV "
+            "execution-side quote = w x NLV before trading (incl. the interest credited by that rebalance in the sources with a 5% rate), untargeted holdings closed "
+            "(incl. a three-contract universe where the target names two of three held contracts), contract targets exact; when the market is frictionless, weights = w, NLV "
             "unchanged and an immediate second rebalance trades < 1e-9 NLV.",
             "Threshold 0 only (C12 covers thresholds); rebalances whose own trades ruin the account excluded (C09).",
             "DESIGN 4/C03"),
@@ -89,7 +91,8 @@ CHECKS = {
             "Every state of the ledger BFS (depth 2 quick / 3 thorough) x all 24 assignments of {none, bid NaN, ask NaN, both NaN, discontinued then re-quoted} to "
             "the two traded contracts, plus a never-quoted third contract, x {valuation, weights, 8 rebalance targets}: valuation raises iff a non-zero position "
             "lost its liquidation side (never 0/NaN), flat positions never need a quote, a rebalance needing a missing execution quote raises and leaves positions, "
-            "track record and cash+margins unchanged, a successful one has finite trades and a consistent ledger, dead books stay dead.",
+            "track record and cash+margins unchanged, a successful one has finite trades and a consistent ledger, dead books stay dead; plus environment-level "
+            "episodes where the same faults arrive as events while a long/short spot or margined position is held: TradingEnv.step must raise, never return a reward.",
             "Interest rate 0; a trade missing only its non-execution side may or may not fail.",
             "DESIGN 4/C13"),
     "C14": ("model_checking",
@@ -146,7 +149,7 @@ CHECKS = {
             "region enumeration of the piecewise-constant lead resolution (every breakpoint, both sides, one interior point) + bounded-exhaustive roll episodes on the real TradingEnv",
             "Lead: 8 classes x start years x spans x month offsets 0-2, every last-trading instant L, L-1s, L+1s, interval midpoints, also through the shared clock "
             "(symbol, Exchange[chain], allocation keys): earliest last-trading date strictly later than now, never past it, monotone. Roll: ES/VX (quick) + NK/ZN "
-            "(thorough) chains x strides 1-5 business days x every phase x periodic action scripts over {+w,-w,0,w+small} x spread x threshold: after every "
+            "(thorough) chains (month offset 0 and 1) x strides 1-5 business days x every phase x periodic action scripts over {+w,-w,0,w+small,+3%,-3%} x spread x threshold: after every "
             "rebalance every non-lead contract is flat, the lead position matches the target at prevailing quotes, nothing is held at or after expiry.",
             "Grids with no step in [last trading, expiry) of a held contract are outside the statement's proviso (skipped, counted). Latency 0.",
             "DESIGN 4/C11"),
